@@ -35,7 +35,7 @@ structure ClientCfg where
   perc : PercCfg
   deriving DecidableEq, Repr
 
-def ClientCfg.good : ClientCfg := ⟨.primaryAlone, true, ⟨true⟩⟩
+def ClientCfg.good : ClientCfg := ⟨.primaryAlone, true, ⟨true, true⟩⟩
 
 /-- configuration under which `C28_atomic` is proved -/
 def ClientCfg.Good (c : ClientCfg) : Prop :=
